@@ -116,7 +116,7 @@ def lookupProtobuf (tag : String) : Option String :=
 
 mutual
 inductive Codec where
-  | bool | int | int32 | int64 | uint | uint32 | uint64 | fixed32 | fixed64 | float32 | float64
+  | bool | int | int32 | int64 | uint | uint32 | uint64 | fixed32 | fixed64 | sfixed32 | sfixed64 | float32 | float64
   | string | bytes
   | byteArray (n : Nat)
   | message                                   -- a type implementing proto.Message (RawMessage in the corpus)
@@ -146,8 +146,8 @@ end
 
 def Codec.wire : Codec → Wire
   | .bool | .int | .int32 | .int64 | .uint | .uint32 | .uint64 => .varint
-  | .fixed32 | .float32 => .fixed32
-  | .fixed64 | .float64 => .fixed64
+  | .fixed32 | .sfixed32 | .float32 => .fixed32
+  | .fixed64 | .sfixed64 | .float64 => .fixed64
   | .string | .bytes | .byteArray _ | .message | .struct _ | .map .. | .unsupported => .varlen
   | .ptr c => c.wire
   | .slice _ _ w _ => w
@@ -226,8 +226,10 @@ def fieldsOf (number : Nat) : Fields → CFields
       | some s =>
         match s.wire, baseTy t with
         | .fixed32, .int .u32 => some .fixed32
+        | .fixed32, .int .i32 => some .sfixed32      -- sfixed32: same four bytes, read back as signed
         | .fixed32, .f32 => some .float32
         | .fixed64, .int .u64 => some .fixed64
+        | .fixed64, .int .i64 => some .sfixed64
         | .fixed64, .f64 => some .float64
         | _, _ => none
       | none => none
@@ -285,8 +287,8 @@ def size : Codec → Val → Flags → Nat
     if i != 0 || fl.wantzero then sizeOfVarint (fl.u64 i) else 0
   | .uint, .int i, fl | .uint32, .int i, fl | .uint64, .int i, fl =>
     if i != 0 || fl.wantzero then sizeOfVarint (BitVec.ofInt 64 i) else 0
-  | .fixed32, .int i, fl => if i != 0 || fl.wantzero then 4 else 0
-  | .fixed64, .int i, fl => if i != 0 || fl.wantzero then 8 else 0
+  | .fixed32, .int i, fl | .sfixed32, .int i, fl => if i != 0 || fl.wantzero then 4 else 0
+  | .fixed64, .int i, fl | .sfixed64, .int i, fl => if i != 0 || fl.wantzero then 8 else 0
   | .float32, .float b, fl => if b != 0 || fl.wantzero then 4 else 0
   | .float64, .float b, fl => if b != 0 || fl.wantzero then 8 else 0
   | .string, .str s, fl => if !s.isEmpty || fl.wantzero then sizeOfVarlen s.length else 0
@@ -348,8 +350,8 @@ def encode : Codec → Val → Flags → Bytes
     if i != 0 || fl.wantzero then encodeVarint (fl.u64 i) else []
   | .uint, .int i, fl | .uint32, .int i, fl | .uint64, .int i, fl =>
     if i != 0 || fl.wantzero then encodeVarint (BitVec.ofInt 64 i) else []
-  | .fixed32, .int i, fl => if i != 0 || fl.wantzero then le32 (BitVec.ofInt 32 i) else []
-  | .fixed64, .int i, fl => if i != 0 || fl.wantzero then le64 (BitVec.ofInt 64 i) else []
+  | .fixed32, .int i, fl | .sfixed32, .int i, fl => if i != 0 || fl.wantzero then le32 (BitVec.ofInt 32 i) else []
+  | .fixed64, .int i, fl | .sfixed64, .int i, fl => if i != 0 || fl.wantzero then le64 (BitVec.ofInt 64 i) else []
   | .float32, .float b, fl => if b != 0 || fl.wantzero then le32 (BitVec.ofNat 32 b) else []
   | .float64, .float b, fl => if b != 0 || fl.wantzero then le64 (BitVec.ofNat 64 b) else []
   | .string, .str s, fl =>
@@ -454,7 +456,7 @@ def lookupField (fs : CFields) (number : Nat) : Option (Nat × Bool × Bool × C
 /-- type of each codec's target, needed to allocate a zero value behind a nil pointer -/
 def zeroOfCodec : Codec → Val
   | .bool => .bool false
-  | .int | .int32 | .int64 | .uint | .uint32 | .uint64 | .fixed32 | .fixed64 => .int 0
+  | .int | .int32 | .int64 | .uint | .uint32 | .uint64 | .fixed32 | .fixed64 | .sfixed32 | .sfixed64 => .int 0
   | .float32 | .float64 => .float 0
   | .string => .str []
   | .bytes | .message | .ptr _ | .slice .. | .map .. | .unsupported => .nil
@@ -510,6 +512,12 @@ def decode : Nat → Codec → Bytes → Val → Flags → Res (Val × Nat)
       | none => .err "unexpectedEof"
     | .fixed64 => match unLE64 b with
       | some v => .ok (.int v.toNat, 8)
+      | none => .err "unexpectedEof"
+    | .sfixed32 => match unLE32 b with
+      | some v => .ok (.int v.toInt, 4)
+      | none => .err "unexpectedEof"
+    | .sfixed64 => match unLE64 b with
+      | some v => .ok (.int v.toInt, 8)
       | none => .err "unexpectedEof"
     | .float32 => match unLE32 b with
       | some v => .ok (.float v.toNat, 4)
